@@ -56,7 +56,15 @@ def validate(ctx, tracefile, relevant, strict_backoff):
             drift += 1
             ctx.extra.setdefault('drift_examples', []).append(ln)
             continue
-        if relevant(ln, fl):
+        if relevant(ln, fl) and ln.get('ev') in ('Tick', 'Quiet'):
+            # the model's Tick / Quiet are refused only by NoOverdue / "nothing pending after a long silence"
+            pends = [(x.get('n'), p.get('a'), p.get('tries')) for x in (fl.get('full') or fl.get('context') or [])
+                     if x.get('ev') in ('TunSend', 'Retry') for p in x.get('pend', [])][-3:]
+            ctx.violation('retry:pending-handshake-fell-out-of-the-timer',
+                          'at the end of a try interval (%s) a pending handshake had neither been retransmitted nor abandoned '
+                          'although its own back-off delay had run out more than two intervals before (HsManager.tla NoOverdue); '
+                          'latest pending handshakes seen (node, address, attempts): %s' % (ln.get('ev'), pends), fl)
+        elif relevant(ln, fl):
             key = 'trace:%s:%s' % (ln.get('ev'), ln.get('kind', ln.get('a', '')))
             ctx.violation(key, 'node %s: the step %s is not a behaviour of HsManager.tla (state after the step: hosts=%s pend=%s out=%s)'
                           % (ln.get('n'), json.dumps({k: ln.get(k) for k in ('ev', 'n', 'a', 'id', 'via', 'kind', 'k')}),
